@@ -13,7 +13,7 @@ class Timestamp:
         self.nsec: int = int(nsec)
 
     def __str__(self) -> str:
-        return f"{self.sec}.{self.nsec:09d}"
+        return f"{self.sec}.{abs(self.nsec):09d}"
 
     def __repr__(self) -> str:
         return f"Timestamp({self.sec}, {self.nsec})"
